@@ -855,6 +855,16 @@ func runMesh3(t testingT, src, sched *choice.Source, st *Stats) (fs []Finding) {
 
 // sortedFaces orders faces by value: TriangleSlice follows Go map order, and a
 // history must not depend on it if it is to replay exactly.
+func less3(a, b model3d.Coord3D) bool {
+	if a.X != b.X {
+		return a.X < b.X
+	}
+	if a.Y != b.Y {
+		return a.Y < b.Y
+	}
+	return a.Z < b.Z
+}
+
 func sortedFaces(ts []*tri) []*tri {
 	sort.SliceStable(ts, func(i, j int) bool { return fmt.Sprint(coordSetOrdered(ts[i])) < fmt.Sprint(coordSetOrdered(ts[j])) })
 	return ts
@@ -1036,8 +1046,69 @@ func (h *hist3) burst(t testingT, src, sched *choice.Source) []Finding {
 		}
 	}
 	hadIndex := h.real.VerifHasVertexIndex()
-	res := simsched.Run(t.(simT), simsched.Config{Src: sched, Sticky: src.Intn(4), Policy: simsched.DrawPolicy(sched)}, func() {
-		var wg sync.WaitGroup
+	preList := append([]*tri(nil), h.list...) // what the readers must see
+	pol := simsched.DrawPolicy(sched)
+	// late editor (drawn on the auxiliary tape): one more task starts an
+	// IterateVertices together with the readers - racing them to the first index
+	// build - whose callback, at its first call, waits until every reader has
+	// returned and then removes every face at some other vertex.  The edit happens
+	// when nobody else is using the mesh, so it is legal; the running iteration
+	// must not visit the vertex that is gone ("if f removes vertices, they will not
+	// be visited") and must visit everything that stayed exactly once.
+	lateEditor := sched.Aux().Intn(3) == 2 && len(h.list) >= 2
+	var edVisited []model3d.Coord3D
+	var edGone []model3d.Coord3D // vertices without a face after the edit
+	var edRemoved []*tri
+	edBad := ""
+	res := simsched.Run(t.(simT), simsched.Config{Src: sched, Sticky: src.Intn(4), Policy: pol}, func() {
+		var wg, wgE sync.WaitGroup
+		if lateEditor {
+			wgE.Add(1)
+			go func() {
+				defer wgE.Done()
+				simsched.Yield("burst.start", k)
+				first := true
+				gone := map[model3d.Coord3D]bool{}
+				h.real.IterateVertices(func(c model3d.Coord3D) {
+					if first {
+						first = false
+						wg.Wait()
+						// victim: the smallest current vertex other than c
+						var w model3d.Coord3D
+						found := false
+						for _, f := range h.list {
+							for _, v := range f {
+								if v != c && (!found || less3(v, w)) {
+									w, found = v, true
+								}
+							}
+						}
+						if found {
+							left := map[model3d.Coord3D]bool{}
+							for _, f := range h.list {
+								if f[0] == w || f[1] == w || f[2] == w {
+									edRemoved = append(edRemoved, f)
+									h.real.Remove(f)
+								} else {
+									left[f[0]], left[f[1]], left[f[2]] = true, true, true
+								}
+							}
+							for _, f := range edRemoved {
+								for _, v := range f {
+									if !left[v] && !gone[v] {
+										gone[v] = true
+										edGone = append(edGone, v)
+									}
+								}
+							}
+						}
+					} else if gone[c] && edBad == "" {
+						edBad = fmt.Sprintf("IterateVertices visited %v although its callback had removed every face at that vertex before (the iteration raced concurrent readers to the first index build)", c)
+					}
+					edVisited = append(edVisited, c)
+				})
+			}()
+		}
 		for i := 0; i < k; i++ {
 			wg.Add(1)
 			go func(i int) {
@@ -1051,7 +1122,47 @@ func (h *hist3) burst(t testingT, src, sched *choice.Source) []Finding {
 		}
 		simsched.Yield("burst.wait", 0)
 		wg.Wait()
+		wgE.Wait()
 	})
+	if lateEditor {
+		h.st.probe("burst: late editor (IterateVertices racing the readers, then editing)")
+		h.log("late editor removed %d faces", len(edRemoved))
+		before := map[model3d.Coord3D]bool{}
+		for _, f := range h.list {
+			before[f[0]], before[f[1]], before[f[2]] = true, true, true
+		}
+		for _, f := range edRemoved {
+			for i, g := range h.list {
+				if g == f {
+					h.list = append(h.list[:i:i], h.list[i+1:]...)
+					break
+				}
+			}
+			h.removed = append(h.removed, f)
+		}
+		if res.Deadlock || res.Livelock || res.Panic != nil {
+			return h.fail("burst-run", fmt.Sprintf("reader burst with late editor: deadlock=%v livelock=%v panic=%v", res.Deadlock, res.Livelock, res.Panic))
+		}
+		if edBad != "" {
+			return h.fail("burst-late-editor", edBad)
+		}
+		goneSet := map[model3d.Coord3D]bool{}
+		for _, v := range edGone {
+			goneSet[v] = true
+		}
+		count := map[model3d.Coord3D]int{}
+		for _, v := range edVisited {
+			count[v]++
+			if !before[v] {
+				return h.fail("burst-late-editor", fmt.Sprintf("IterateVertices visited %v, which no face used", v))
+			}
+		}
+		for v := range before {
+			if !goneSet[v] && count[v] != 1 {
+				return h.fail("burst-late-editor", fmt.Sprintf("IterateVertices visited vertex %v, which stayed in the mesh, %d times", v, count[v]))
+			}
+		}
+	}
 	h.st.Steps += res.Steps
 	h.st.TraceHashes = append(h.st.TraceHashes, res.TraceHash)
 	h.log("reader burst (%d tasks, index present before: %v)", k, hadIndex)
@@ -1065,7 +1176,7 @@ func (h *hist3) burst(t testingT, src, sched *choice.Source) []Finding {
 	for i := range plans {
 		for _, qq := range plans[i] {
 			want := 0
-			for _, tr := range h.list {
+			for _, tr := range preList {
 				if tr[0] == qq.v || tr[1] == qq.v || tr[2] == qq.v {
 					want++
 				}
